@@ -286,7 +286,7 @@ theorem fromJson_of_loads (loads : Str → Except Err Json) (av text : Str) (h :
   simp only [hl, Header.toJsonVal, getItem, lookup_kModule, lookup_kTranspiler, lookup_kVersion, bind, Except.bind, pure, Except.pure]
   rw [make_normal av h hn]
 
-theorem curHeader_normal {σ : Type} (E : Env σ) (s : σ) (m : Str) : (curHeader E s m).Normal E.appVersion := Or.inr rfl
+theorem curHeader_normal {σ : Type} (E : Env σ) (v : Vers) (s : σ) (m : Str) : (curHeader E v s m).Normal v.app := Or.inr rfl
 
 theorem tryFromContent_line (loads : Str → Except Err Json) (av pre body : Str) (h : Header)
     (hpre : NoEarly Tag pre) (hl : loads (' ' :: h.toJson) = .ok h.toJsonVal) (hn : h.Normal av) :
@@ -350,21 +350,23 @@ variable {σ : Type}
 theorem write_cfg (w : World σ) (p : Str) (c : Text) : (w.write p c).cfg = w.cfg := rfl
 theorem write_src (w : World σ) (p : Str) (c : Text) : (w.write p c).src = w.src := rfl
 theorem write_mods (w : World σ) (p : Str) (c : Text) : (w.write p c).mods = w.mods := rfl
+theorem write_ver (w : World σ) (p : Str) (c : Text) : (w.write p c).ver = w.ver := rfl
 
 theorem writeAll_frame (E : Env σ) (ms : List Str) (w : World σ) :
-    (writeAll E w ms).world.cfg = w.cfg ∧ (writeAll E w ms).world.src = w.src ∧ (writeAll E w ms).world.mods = w.mods := by
+    (writeAll E w ms).world.cfg = w.cfg ∧ (writeAll E w ms).world.src = w.src ∧ (writeAll E w ms).world.mods = w.mods ∧
+      (writeAll E w ms).world.ver = w.ver := by
   induction ms generalizing w with
   | nil => simp [writeAll]
   | cons m ms ih =>
     simp only [writeAll]
-    cases hr : render E w.src m with
+    cases hr : render E w.ver w.src m with
     | error e => simp
     | ok c =>
       cases hq : outputFilepath w.cfg m with
       | error e => simp
       | ok p =>
         have := ih (w.write p c)
-        simpa [write_cfg, write_src, write_mods] using this
+        simpa [write_cfg, write_src, write_mods, write_ver] using this
 
 theorem writeAll_untouched (E : Env σ) (ms : List Str) (w : World σ) (p : Str) (hp : p ∉ (writeAll E w ms).written) :
     (writeAll E w ms).world.files p = w.files p := by
@@ -372,7 +374,7 @@ theorem writeAll_untouched (E : Env σ) (ms : List Str) (w : World σ) (p : Str)
   | nil => simp [writeAll]
   | cons m ms ih =>
     simp only [writeAll] at hp ⊢
-    cases hr : render E w.src m with
+    cases hr : render E w.ver w.src m with
     | error e => rfl
     | ok c =>
       cases hq : outputFilepath w.cfg m with
@@ -388,7 +390,7 @@ theorem writeAll_written (E : Env σ) (ms : List Str) (w : World σ) :
   | nil => simp [writeAll]
   | cons m ms ih =>
     simp only [writeAll]
-    cases hr : render E w.src m with
+    cases hr : render E w.ver w.src m with
     | error e => simp
     | ok c =>
       cases hq : outputFilepath w.cfg m with
@@ -452,178 +454,235 @@ theorem selectFrom_filter (E : Env σ) (w : World σ) (sel : Str → Bool) (ms :
 
 /-! ### same contents -/
 
+/-- the file trees agree (existence and bytes) on every path outside `P` -/
+def SameExcept (P : Str → Prop) (a b : Str → Option File) : Prop := ∀ p, ¬ P p → (a p).map (·.content) = (b p).map (·.content)
+
 theorem sameContents_refl (a : Str → Option File) : SameContents a a := fun _ => rfl
 
-theorem sameContents_write_both (wa wb : World σ) (p : Str) (c : Text) (h : SameContents wa.files wb.files) :
-    SameContents (wa.write p c).files (wb.write p c).files := by
-  intro q
+theorem sameExcept_refl (P : Str → Prop) (a : Str → Option File) : SameExcept P a a := fun _ _ => rfl
+
+theorem sameExcept_false (a b : Str → Option File) (h : SameExcept (fun _ => False) a b) : SameContents a b :=
+  fun p => h p (fun x => x)
+
+theorem sameExcept_write_both (P : Str → Prop) (wa wb : World σ) (p : Str) (c : Text) (h : SameExcept P wa.files wb.files) :
+    SameExcept P (wa.write p c).files (wb.write p c).files := by
+  intro q hq
   simp only [World.write]
   split
   · rfl
-  · exact h q
+  · exact h q hq
 
-theorem sameContents_write_right (wa wb : World σ) (p : Str) (c : Text) (h : SameContents wa.files wb.files)
-    (hp : (wa.files p).map (·.content) = some c) : SameContents wa.files (wb.write p c).files := by
-  intro q
+theorem sameExcept_write_right (P : Str → Prop) (wa wb : World σ) (p : Str) (c : Text) (h : SameExcept P wa.files wb.files)
+    (hp : (wa.files p).map (·.content) = some c) : SameExcept P wa.files (wb.write p c).files := by
+  intro q hq
   simp only [World.write]
   split
-  · rename_i hq; subst hq; simpa using hp
-  · exact h q
+  · rename_i hqp; subst hqp; simpa using hp
+  · exact h q hq
 
-/-- the heart of the fix-point argument: writing only the selected modules gives the same contents as writing all of them,
-    provided every unselected module's file already holds what would be written and no two modules share a path -/
-theorem writeAll_filter_same (E : Env σ) (sel : Str → Bool) (ms : List Str) (wa wb : World σ)
-    (hsrc : wa.src = wb.src) (hcfg : wa.cfg = wb.cfg)
+theorem sameExcept_write_right_excluded (P : Str → Prop) (wa wb : World σ) (p : Str) (c : Text) (h : SameExcept P wa.files wb.files)
+    (hp : P p) : SameExcept P wa.files (wb.write p c).files := by
+  intro q hq
+  simp only [World.write]
+  split
+  · rename_i hqp; subst hqp; exact absurd hp hq
+  · exact h q hq
+
+/-- the heart of the fix-point argument: writing only the selected modules gives the same contents as writing all of them on
+    every path outside `P`, provided no two modules share a path and every unselected module either already holds what would
+    be written, or can be written and has its path in `P` -/
+theorem writeAll_filter_same (E : Env σ) (sel : Str → Bool) (P : Str → Prop) (ms : List Str) (wa wb : World σ)
+    (hsrc : wa.src = wb.src) (hcfg : wa.cfg = wb.cfg) (hver : wa.ver = wb.ver)
     (hpw : ms.Pairwise (fun a b => outputFilepath wa.cfg a ≠ outputFilepath wa.cfg b))
-    (hsame : SameContents wa.files wb.files)
-    (hup : ∀ m ∈ ms, sel m = false → ∃ c p, render E wa.src m = .ok c ∧ outputFilepath wa.cfg m = .ok p ∧
-      (wa.files p).map (·.content) = some c) :
-    SameContents (writeAll E wa (ms.filter sel)).world.files (writeAll E wb ms).world.files := by
+    (hsame : SameExcept P wa.files wb.files)
+    (hup : ∀ m ∈ ms, sel m = false → ∃ c p, render E wa.ver wa.src m = .ok c ∧ outputFilepath wa.cfg m = .ok p ∧
+      ((wa.files p).map (·.content) = some c ∨ P p)) :
+    SameExcept P (writeAll E wa (ms.filter sel)).world.files (writeAll E wb ms).world.files := by
   induction ms generalizing wa wb with
   | nil => simpa [writeAll] using hsame
   | cons m ms ih =>
     rw [List.pairwise_cons] at hpw
     cases hs : sel m with
     | true =>
-      simp only [List.filter, hs, writeAll, ← hsrc, ← hcfg]
-      cases hr : render E wa.src m with
+      simp only [List.filter, hs, writeAll, ← hsrc, ← hcfg, ← hver]
+      cases hr : render E wa.ver wa.src m with
       | error e => simpa using hsame
       | ok c =>
         cases hq : outputFilepath wa.cfg m with
         | error e => simpa using hsame
         | ok p =>
           simp only
-          apply ih (wa.write p c) (wb.write p c) (by simp [write_src, hsrc]) (by simp [write_cfg, hcfg]) (by simpa [write_cfg] using hpw.2)
-            (sameContents_write_both wa wb p c hsame)
+          apply ih (wa.write p c) (wb.write p c) (by simp [write_src, hsrc]) (by simp [write_cfg, hcfg]) (by simp [write_ver, hver])
+            (by simpa [write_cfg] using hpw.2) (sameExcept_write_both P wa wb p c hsame)
           intro m' hm' hs'
           obtain ⟨c', p', h1, h2, h3⟩ := hup m' (by simp [hm']) hs'
-          refine ⟨c', p', by simpa [write_src] using h1, by simpa [write_cfg] using h2, ?_⟩
+          refine ⟨c', p', by simpa [write_src, write_ver] using h1, by simpa [write_cfg] using h2, ?_⟩
           have hne : p' ≠ p := by
             intro e; subst e
             exact hpw.1 m' hm' (hq.trans h2.symm)
-          simpa [World.write, hne] using h3
+          rcases h3 with h3 | h3
+          · exact Or.inl (by simpa [World.write, hne] using h3)
+          · exact Or.inr h3
     | false =>
       obtain ⟨c, p, h1, h2, h3⟩ := hup m (by simp) hs
       simp only [List.filter, hs]
       have hb : writeAll E wb (m :: ms) = ⟨(writeAll E (wb.write p c) ms).world, p :: (writeAll E (wb.write p c) ms).written, (writeAll E (wb.write p c) ms).status⟩ := by
-        simp only [writeAll, ← hsrc, ← hcfg, h1, h2]
+        simp only [writeAll, ← hsrc, ← hcfg, ← hver, h1, h2]
       rw [hb]
       simp only
-      apply ih wa (wb.write p c) (by simp [write_src, hsrc]) (by simp [write_cfg, hcfg]) hpw.2
-        (sameContents_write_right wa wb p c hsame h3)
-      intro m' hm' hs'
-      exact hup m' (by simp [hm']) hs'
+      apply ih wa (wb.write p c) (by simp [write_src, hsrc]) (by simp [write_cfg, hcfg]) (by simp [write_ver, hver]) hpw.2
+      · rcases h3 with h3 | h3
+        · exact sameExcept_write_right P wa wb p c hsame h3
+        · exact sameExcept_write_right_excluded P wa wb p c hsame h3
+      · intro m' hm' hs'
+        exact hup m' (by simp [hm']) hs'
 
-/-! ### the provenance invariant and the fix-point under own-source-only outputs -/
+/-! ### the provenance invariant and the fix-point theorems -/
 
-/-- every output file is the rendering of some listed module with some source whose transpilation succeeded -/
-def Inv (E : Env σ) (bodyOf : Str → σ → Except Err Text) (mods : List Str) (files : Str → Option File) : Prop :=
-  ∀ p f, files p = some f → ∃ m ∈ mods, ∃ s b, bodyOf m s = .ok b ∧ f.content = renderText E s m b
+/-- every output file was written by a run: it is the rendering — by a program of one of the versions `vs` — of a listed module
+    from the sources the ghost field remembers, and that transpilation succeeded -/
+def Inv (E : Env σ) (mods : List Str) (vs : List Vers) (w : World σ) : Prop :=
+  ∀ p f, w.files p = some f → ∃ m ∈ mods, ∃ snap, w.prov p = some snap ∧ ∃ v ∈ vs, ∃ b,
+    E.out snap m = .ok b ∧ f.content = renderText E v (snap m) m b
 
 /-- the transpiled body of a module depends on that module's own source only -/
 def OwnSource (E : Env σ) (bodyOf : Str → σ → Except Err Text) : Prop := ∀ src m, E.out src m = bodyOf m (src m)
 
-/-- `json.loads` decodes the header JSON the runner itself writes for the listed modules -/
-def LoadsSound (E : Env σ) (mods : List Str) : Prop :=
-  ∀ s, ∀ m ∈ mods, E.loads (' ' :: (curHeader E s m).toJson) = .ok (curHeader E s m).toJsonVal
+/-- `deps m` lists every module whose source the transpiled body of `m` can depend on (its import closure) -/
+def OutDeps (E : Env σ) (deps : Str → List Str) : Prop :=
+  ∀ src src' m, (∀ d ∈ deps m, src d = src' d) → E.out src m = E.out src' m
+
+/-- `json.loads` decodes the header JSON the runner itself writes for the listed modules under the versions `vs` -/
+def LoadsSound (E : Env σ) (mods : List Str) (vs : List Vers) : Prop :=
+  ∀ v ∈ vs, ∀ s, ∀ m ∈ mods, E.loads (' ' :: (curHeader E v s m).toJson) = .ok (curHeader E v s m).toJsonVal
 
 /-- md5 does not collide on the header texts of the listed modules -/
-def IdInj (E : Env σ) (mods : List Str) : Prop :=
-  ∀ s s', ∀ m ∈ mods, ∀ m' ∈ mods, E.md5 (curHeader E s m).toJson = E.md5 (curHeader E s' m').toJson →
-    (curHeader E s m).toJson = (curHeader E s' m').toJson
+def IdInj (E : Env σ) (mods : List Str) (vs : List Vers) : Prop :=
+  ∀ v ∈ vs, ∀ v' ∈ vs, ∀ s s', ∀ m ∈ mods, ∀ m' ∈ mods,
+    E.md5 (curHeader E v s m).toJson = E.md5 (curHeader E v' s' m').toJson →
+    (curHeader E v s m).toJson = (curHeader E v' s' m').toJson
 
 /-- md5 does not collide on the source texts -/
 def HashInj (E : Env σ) : Prop := ∀ s s', E.hash s = E.hash s' → s = s'
 
-theorem render_own (E : Env σ) (bodyOf : Str → σ → Except Err Text) (hown : OwnSource E bodyOf) (src : Str → σ) (m : Str) :
-    render E src m = match bodyOf m (src m) with
-      | .error e => .error e
-      | .ok b => .ok (renderText E (src m) m b) := by
-  unfold render; rw [hown src m]
-  cases bodyOf m (src m) <;> rfl
+/-- no release carries an empty application version (`app_version or Versions.app` would replace it on reading) -/
+def VersNonEmpty (vs : List Vers) : Prop := ∀ v ∈ vs, v.app ≠ []
 
-theorem inv_write (E : Env σ) (bodyOf : Str → σ → Except Err Text) (mods : List Str) (w : World σ) (p m : Str) (b : Text)
-    (hm : m ∈ mods) (hb : bodyOf m (w.src m) = .ok b) (hinv : Inv E bodyOf mods w.files) :
-    Inv E bodyOf mods (w.write p (renderText E (w.src m) m b)).files := by
+theorem inv_mono (E : Env σ) (mods : List Str) (vs vs' : List Vers) (w : World σ) (hsub : ∀ v ∈ vs, v ∈ vs')
+    (h : Inv E mods vs w) : Inv E mods vs' w := by
+  intro p f hf
+  obtain ⟨m, hm, snap, hs, v, hv, b, hb, hc⟩ := h p f hf
+  exact ⟨m, hm, snap, hs, v, hsub v hv, b, hb, hc⟩
+
+theorem inv_write (E : Env σ) (mods : List Str) (vs : List Vers) (w : World σ) (p m : Str) (b : Text)
+    (hm : m ∈ mods) (hv : w.ver ∈ vs) (hb : E.out w.src m = .ok b) (hinv : Inv E mods vs w) :
+    Inv E mods vs (w.write p (renderText E w.ver (w.src m) m b)) := by
   intro q f hf
-  simp only [World.write] at hf
+  simp only [World.write] at hf ⊢
   split at hf
-  · injection hf with hf; subst hf
-    exact ⟨m, hm, w.src m, b, hb, rfl⟩
-  · exact hinv q f hf
+  · rename_i hq
+    injection hf with hf; subst hf
+    exact ⟨m, hm, w.src, by simp [hq], w.ver, hv, b, hb, rfl⟩
+  · rename_i hq
+    obtain ⟨m', hm', snap, hs, v, hv', b', hb', hc⟩ := hinv q f hf
+    exact ⟨m', hm', snap, by simp [hq, hs], v, hv', b', hb', hc⟩
 
-theorem inv_writeAll (E : Env σ) (bodyOf : Str → σ → Except Err Text) (hown : OwnSource E bodyOf) (mods ms : List Str)
-    (hsub : ∀ m ∈ ms, m ∈ mods) (w : World σ) (hinv : Inv E bodyOf mods w.files) :
-    Inv E bodyOf mods (writeAll E w ms).world.files := by
+theorem inv_writeAll (E : Env σ) (mods : List Str) (vs : List Vers) (ms : List Str)
+    (hsub : ∀ m ∈ ms, m ∈ mods) (w : World σ) (hv : w.ver ∈ vs) (hinv : Inv E mods vs w) :
+    Inv E mods vs (writeAll E w ms).world := by
   induction ms generalizing w with
   | nil => simpa [writeAll] using hinv
   | cons m ms ih =>
-    simp only [writeAll]
-    rw [render_own E bodyOf hown]
-    cases hb : bodyOf m (w.src m) with
+    simp only [writeAll, render]
+    cases hb : E.out w.src m with
     | error e => simpa using hinv
     | ok b =>
       cases hq : outputFilepath w.cfg m with
       | error e => simpa using hinv
       | ok p =>
         simp only
-        exact ih (fun x hx => hsub x (by simp [hx])) _ (inv_write E bodyOf mods w p m b (hsub m (by simp)) hb hinv)
+        exact ih (fun x hx => hsub x (by simp [hx])) _ (by simpa [write_ver] using hv)
+          (inv_write E mods vs w p m b (hsub m (by simp)) hv hb hinv)
 
-theorem parse_rendered (E : Env σ) (mods : List Str) (hls : LoadsSound E mods) (s : σ) (m : Str) (hm : m ∈ mods) (b : Text) :
-    tryFromContent E.loads E.appVersion (renderText E s m b) = .ok (some (curHeader E s m)) := by
+theorem curHeader_normal_any (E : Env σ) (v : Vers) (s : σ) (m : Str) (av : Str) (hne : v.app ≠ []) :
+    (curHeader E v s m).Normal av := by
+  refine Or.inl ?_
+  simp only [curHeader, Header.make, falsy]
+  cases h : v.app with
+  | nil => exact absurd h hne
+  | cons c cs => rfl
+
+theorem parse_rendered (E : Env σ) (mods : List Str) (vs : List Vers) (hls : LoadsSound E mods vs) (hne : VersNonEmpty vs)
+    (av : Str) (v : Vers) (hv : v ∈ vs) (s : σ) (m : Str) (hm : m ∈ mods) (b : Text) :
+    tryFromContent E.loads av (renderText E v s m b) = .ok (some (curHeader E v s m)) := by
   unfold renderText
   rw [← List.append_assoc]
-  exact tryFromContent_line E.loads E.appVersion _ b _ noEarly_comment (hls s m hm) (curHeader_normal E s m)
+  exact tryFromContent_line E.loads av _ b _ noEarly_comment (hls v hv s m hm) (curHeader_normal_any E v s m av (hne v hv))
 
-theorem header_eq_of_toJson (E : Env σ) (mods : List Str) (hls : LoadsSound E mods) (s s' : σ) (m m' : Str)
-    (hm : m ∈ mods) (hm' : m' ∈ mods) (h : (curHeader E s m).toJson = (curHeader E s' m').toJson) :
-    E.hash s = E.hash s' ∧ m = m' := by
-  have h1 := hls s m hm
-  have h2 := hls s' m' hm'
+theorem header_eq_of_toJson (E : Env σ) (mods : List Str) (vs : List Vers) (hls : LoadsSound E mods vs) (v v' : Vers) (s s' : σ)
+    (m m' : Str) (hv : v ∈ vs) (hv' : v' ∈ vs) (hm : m ∈ mods) (hm' : m' ∈ mods)
+    (h : (curHeader E v s m).toJson = (curHeader E v' s' m').toJson) :
+    E.hash s = E.hash s' ∧ m = m' ∧ v = v' := by
+  have h1 := hls v hv s m hm
+  have h2 := hls v' hv' s' m' hm'
   rw [h, h2] at h1
-  simp only [curHeader, Header.make, Header.toJsonVal, moduleMeta, Except.ok.injEq, Json.obj.injEq, List.cons.injEq,
+  simp only [curHeader, Header.make, Header.toJsonVal, moduleMeta, transpilerMeta, Except.ok.injEq, Json.obj.injEq, List.cons.injEq,
     Prod.mk.injEq, Json.str.injEq, true_and, and_true] at h1
-  exact ⟨h1.1.symm, h1.2.symm⟩
+  obtain ⟨ha, ⟨hh, hp⟩, ht⟩ := h1
+  refine ⟨hh.symm, hp.symm, ?_⟩
+  cases v; cases v'
+  simp only at ha ht
+  simp [ha, ht]
 
-theorem canTranspile_total (E : Env σ) (bodyOf : Str → σ → Except Err Text) (w : World σ) (hls : LoadsSound E w.mods)
-    (hinv : Inv E bodyOf w.mods w.files) (m p : Str) (hp : outputFilepath w.cfg m = .ok p) :
+theorem canTranspile_total (E : Env σ) (vs : List Vers) (w : World σ) (hls : LoadsSound E w.mods vs) (hne : VersNonEmpty vs)
+    (hinv : Inv E w.mods vs w) (m p : Str) (hp : outputFilepath w.cfg m = .ok p) :
     ∃ b, canTranspile E w m = .ok b := by
   cases hf : w.files p with
   | none => exact ⟨true, by simp only [canTranspile, tryLoadMetaHeader, hp, hf]⟩
   | some f =>
-    obtain ⟨m', hm', s', b', _, hc⟩ := hinv p f hf
-    refine ⟨Header.identity E.md5 (curHeader E (w.src m) m) != Header.identity E.md5 (curHeader E s' m'), ?_⟩
-    simp only [canTranspile, tryLoadMetaHeader, hp, hf, hc, parse_rendered E w.mods hls s' m' hm' b']
+    obtain ⟨m', hm', snap, _, v, hv, b', _, hc⟩ := hinv p f hf
+    refine ⟨Header.identity E.md5 (curHeader E w.ver (w.src m) m) != Header.identity E.md5 (curHeader E v (snap m') m'), ?_⟩
+    simp only [canTranspile, tryLoadMetaHeader, hp, hf, hc, parse_rendered E w.mods vs hls hne w.ver.app v hv (snap m') m' hm' b']
 
-theorem canTranspile_false (E : Env σ) (bodyOf : Str → σ → Except Err Text) (w : World σ)
-    (hown : OwnSource E bodyOf) (hls : LoadsSound E w.mods) (hid : IdInj E w.mods) (hh : HashInj E)
-    (hinv : Inv E bodyOf w.mods w.files) (m p : Str) (hm : m ∈ w.mods) (hp : outputFilepath w.cfg m = .ok p)
+/-- a module the plain run skips: its file is the rendering, by the current versions, of this very module from remembered
+    sources in which the module's own source has the current hash -/
+theorem canTranspile_false (E : Env σ) (vs : List Vers) (w : World σ)
+    (hls : LoadsSound E w.mods vs) (hid : IdInj E w.mods vs) (hne : VersNonEmpty vs) (hver : w.ver ∈ vs)
+    (hinv : Inv E w.mods vs w) (m p : Str) (hm : m ∈ w.mods) (hp : outputFilepath w.cfg m = .ok p)
     (hc : canTranspile E w m = .ok false) :
-    ∃ c, render E w.src m = .ok c ∧ (w.files p).map (·.content) = some c := by
+    ∃ f snap b, w.files p = some f ∧ w.prov p = some snap ∧ E.out snap m = .ok b ∧
+      f.content = renderText E w.ver (snap m) m b ∧ E.hash (snap m) = E.hash (w.src m) := by
   cases hf : w.files p with
   | none => simp [canTranspile, tryLoadMetaHeader, hp, hf] at hc
   | some f =>
-    obtain ⟨m', hm', s', b', hb', hcont⟩ := hinv p f hf
-    simp only [canTranspile, tryLoadMetaHeader, hp, hf, hcont, parse_rendered E w.mods hls s' m' hm' b', Except.ok.injEq, Header.identity] at hc
-    have hmd5 : E.md5 (curHeader E (w.src m) m).toJson = E.md5 (curHeader E s' m').toJson := by
+    obtain ⟨m', hm', snap, hs, v, hv, b', hb', hcont⟩ := hinv p f hf
+    simp only [canTranspile, tryLoadMetaHeader, hp, hf, hcont, parse_rendered E w.mods vs hls hne w.ver.app v hv (snap m') m' hm' b',
+      Except.ok.injEq, Header.identity] at hc
+    have hmd5 : E.md5 (curHeader E w.ver (w.src m) m).toJson = E.md5 (curHeader E v (snap m') m').toJson := by
       simpa using hc
-    have htj := hid (w.src m) s' m hm m' hm' hmd5
-    obtain ⟨hhash, hmm⟩ := header_eq_of_toJson E w.mods hls (w.src m) s' m m' hm hm' htj
-    have hs : w.src m = s' := hh _ _ hhash
+    have htj := hid w.ver hver v hv (w.src m) (snap m') m hm m' hm' hmd5
+    obtain ⟨hhash, hmm, hvv⟩ := header_eq_of_toJson E w.mods vs hls w.ver v (w.src m) (snap m') m m' hver hv hm hm' htj
     subst hmm
-    subst hs
-    refine ⟨renderText E (w.src m) m b', ?_, by simp [hcont]⟩
-    rw [render_own E bodyOf hown, hb']
+    subst hvv
+    exact ⟨f, snap, b', rfl, hs, hb', hcont, hhash.symm⟩
 
-/-- a plain run produces the contents a forced run produces, in every state that satisfies the invariant -/
-theorem runStep_same_as_forced (E : Env σ) (bodyOf : Str → σ → Except Err Text) (w : World σ)
-    (hown : OwnSource E bodyOf) (hls : LoadsSound E w.mods) (hid : IdInj E w.mods) (hh : HashInj E)
-    (hno : NoOverlap w.cfg w.mods) (hinv : Inv E bodyOf w.mods w.files) (f : Bool) :
-    SameContents (runStep E w f).world.files (forcedRun E w).world.files := by
+/-- the output path of a module the plain run skips although a module of `deps` was edited since the file was written -/
+def StalePath (E : Env σ) (deps : Str → List Str) (w : World σ) (p : Str) : Prop :=
+  ∃ m ∈ w.mods, outputFilepath w.cfg m = .ok p ∧ canTranspile E w m = .ok false ∧
+    ∃ snap, w.prov p = some snap ∧ ∃ d ∈ deps m, snap d ≠ w.src d
+
+/-- a plain run produces the contents a forced run produces on every path that is not stale, in every state that satisfies
+    the invariant — provided the forced run can transpile the stale modules -/
+theorem runStep_same_except (E : Env σ) (deps : Str → List Str) (vs : List Vers) (w : World σ)
+    (hdeps : OutDeps E deps) (hself : ∀ m, m ∈ deps m)
+    (hls : LoadsSound E w.mods vs) (hid : IdInj E w.mods vs) (hne : VersNonEmpty vs) (hver : w.ver ∈ vs)
+    (hno : NoOverlap w.cfg w.mods) (hinv : Inv E w.mods vs w)
+    (hok : ∀ m ∈ w.mods, ∀ p, outputFilepath w.cfg m = .ok p → StalePath E deps w p → ∃ c, render E w.ver w.src m = .ok c) (f : Bool) :
+    SameExcept (StalePath E deps w) (runStep E w f).world.files (forcedRun E w).world.files := by
   obtain ⟨hpaths, hpw⟩ := (noOverlapFrom_iff w.cfg w.mods).1 hno
   unfold runStep targets forcedRun
   cases hforce : effForce w.cfg f with
-  | true => exact sameContents_refl _
+  | true => exact sameExcept_refl _ _
   | false =>
     simp only [Bool.false_eq_true, if_false]
     let sel : Str → Bool := fun m => match canTranspile E w m with
@@ -632,19 +691,52 @@ theorem runStep_same_as_forced (E : Env σ) (bodyOf : Str → σ → Except Err 
     have hsel : ∀ m ∈ w.mods, canTranspile E w m = .ok (sel m) := by
       intro m hm
       obtain ⟨p, hp⟩ := hpaths m hm
-      obtain ⟨b, hb⟩ := canTranspile_total E bodyOf w hls hinv m p hp
+      obtain ⟨b, hb⟩ := canTranspile_total E vs w hls hne hinv m p hp
       simp [sel, hb]
     rw [selectFrom_filter E w sel w.mods hsel]
     simp only
-    apply writeAll_filter_same E sel w.mods w w rfl rfl hpw (sameContents_refl _)
+    apply writeAll_filter_same E sel (StalePath E deps w) w.mods w w rfl rfl rfl hpw (sameExcept_refl _ _)
     intro m hm hs
     obtain ⟨p, hp⟩ := hpaths m hm
     have hc : canTranspile E w m = .ok false := by rw [hsel m hm, hs]
-    obtain ⟨c, h1, h2⟩ := canTranspile_false E bodyOf w hown hls hid hh hinv m p hm hp hc
-    exact ⟨c, p, h1, hp, h2⟩
+    obtain ⟨fl, snap, b, hfl, hsnap, hb, hcont, _⟩ := canTranspile_false E vs w hls hid hne hver hinv m p hm hp hc
+    by_cases hfresh : ∀ d ∈ deps m, snap d = w.src d
+    · have hout : E.out w.src m = .ok b := by rw [← hdeps snap w.src m hfresh]; exact hb
+      have hown : snap m = w.src m := hfresh m (hself m)
+      refine ⟨renderText E w.ver (w.src m) m b, p, by simp [render, hout], hp, Or.inl ?_⟩
+      simp [hfl, hcont, hown]
+    · have hstale : StalePath E deps w p := by
+        refine ⟨m, hm, hp, hc, snap, hsnap, ?_⟩
+        apply Classical.byContradiction
+        intro hn
+        apply hfresh
+        intro d hd
+        apply Classical.byContradiction
+        intro hne'
+        exact hn ⟨d, hd, hne'⟩
+      obtain ⟨c, hcr⟩ := hok m hm p hp hstale
+      exact ⟨c, p, hcr, hp, Or.inr hstale⟩
+
+/-- with own-source-only outputs and a collision-free source hash no path is stale -/
+theorem no_stalePath_own (E : Env σ) (vs : List Vers) (w : World σ)
+    (hh : HashInj E) (hls : LoadsSound E w.mods vs) (hid : IdInj E w.mods vs) (hne : VersNonEmpty vs) (hver : w.ver ∈ vs)
+    (hinv : Inv E w.mods vs w) (p : Str) : ¬ StalePath E (fun m => [m]) w p := by
+  rintro ⟨m, hm, hp, hc, snap, hsnap, d, hd, hne'⟩
+  obtain ⟨fl, snap', b, _, hsnap', _, _, hhash⟩ := canTranspile_false E vs w hls hid hne hver hinv m p hm hp hc
+  rw [hsnap] at hsnap'
+  injection hsnap' with hsnap'
+  subst hsnap'
+  simp only [List.mem_singleton] at hd
+  subst hd
+  exact hne' (hh _ _ hhash)
+
+theorem outDeps_own (E : Env σ) (bodyOf : Str → σ → Except Err Text) (hown : OwnSource E bodyOf) : OutDeps E (fun m => [m]) := by
+  intro src src' m h
+  rw [hown src m, hown src' m, h m (by simp)]
 
 theorem runStep_frame (E : Env σ) (w : World σ) (f : Bool) :
-    (runStep E w f).world.cfg = w.cfg ∧ (runStep E w f).world.src = w.src ∧ (runStep E w f).world.mods = w.mods := by
+    (runStep E w f).world.cfg = w.cfg ∧ (runStep E w f).world.src = w.src ∧ (runStep E w f).world.mods = w.mods ∧
+      (runStep E w f).world.ver = w.ver := by
   unfold runStep
   cases targets E w f with
   | error e => simp
@@ -656,50 +748,66 @@ theorem targets_subset (E : Env σ) (w : World σ) (f : Bool) (ts : List Str) (h
   · injection h with h; subst h; exact fun _ hm => hm
   · exact fun m hm => (selectFrom_sublist E w w.mods ts h).subset hm
 
-theorem inv_runStep (E : Env σ) (bodyOf : Str → σ → Except Err Text) (hown : OwnSource E bodyOf) (w : World σ) (f : Bool)
-    (hinv : Inv E bodyOf w.mods w.files) : Inv E bodyOf w.mods (runStep E w f).world.files := by
+theorem inv_runStep (E : Env σ) (vs : List Vers) (w : World σ) (f : Bool) (hv : w.ver ∈ vs)
+    (hinv : Inv E w.mods vs w) : Inv E w.mods vs (runStep E w f).world := by
   unfold runStep
   cases ht : targets E w f with
   | error e => simpa using hinv
-  | ok ts => exact inv_writeAll E bodyOf hown w.mods ts (targets_subset E w f ts ht) w hinv
+  | ok ts => exact inv_writeAll E w.mods vs ts (targets_subset E w f ts ht) w hv hinv
 
-/-- what `exec` preserves: the module list, language and working directory, path injectivity and the provenance invariant -/
-structure Good (E : Env σ) (bodyOf : Str → σ → Except Err Text) (w0 w : World σ) : Prop where
+/-- what `exec` preserves: the module list, language and working directory, path injectivity, the version list and the
+    provenance invariant -/
+structure Good (E : Env σ) (vs : List Vers) (w0 w : World σ) : Prop where
   mods : w.mods = w0.mods
   lang : w.cfg.lang = w0.cfg.lang
   cwd : w.cfg.cwd = w0.cfg.cwd
   noOverlap : NoOverlap w.cfg w0.mods
-  inv : Inv E bodyOf w0.mods w.files
+  ver : w.ver ∈ vs
+  inv : Inv E w0.mods vs w
 
 /-- every `set-dirs` of the history keeps the outputs of the listed modules pairwise distinct -/
 def DirsOK (w0 : World σ) (ops : List (Op σ)) : Prop :=
   ∀ ds, Op.setDirs ds ∈ ops → NoOverlap ⟨ds, w0.cfg.lang, none, w0.cfg.cwd⟩ w0.mods
 
-theorem good_step (E : Env σ) (bodyOf : Str → σ → Except Err Text) (hown : OwnSource E bodyOf) (w0 w : World σ) (op : Op σ)
-    (hg : Good E bodyOf w0 w) (hop : ∀ ds, op = .setDirs ds → NoOverlap ⟨ds, w0.cfg.lang, none, w0.cfg.cwd⟩ w0.mods) :
-    Good E bodyOf w0 (step E w op) := by
+/-- every release of the history carries versions of the list `vs` -/
+def VersOK (vs : List Vers) (w0 : World σ) (ops : List (Op σ)) : Prop :=
+  w0.ver ∈ vs ∧ ∀ v, Op.setVer v ∈ ops → v ∈ vs
+
+theorem inv_of_eq (E : Env σ) (mods : List Str) (vs : List Vers) (w w' : World σ) (hf : w'.files = w.files) (hp : w'.prov = w.prov)
+    (h : Inv E mods vs w) : Inv E mods vs w' := by
+  intro p f hfp
+  rw [hf] at hfp
+  rw [hp]
+  exact h p f hfp
+
+theorem good_step (E : Env σ) (vs : List Vers) (w0 w : World σ) (op : Op σ)
+    (hg : Good E vs w0 w) (hop : ∀ ds, op = .setDirs ds → NoOverlap ⟨ds, w0.cfg.lang, none, w0.cfg.cwd⟩ w0.mods)
+    (hov : ∀ v, op = .setVer v → v ∈ vs) :
+    Good E vs w0 (step E w op) := by
   cases op with
-  | edit m s => exact ⟨hg.mods, hg.lang, hg.cwd, hg.noOverlap, hg.inv⟩
+  | edit m s => exact ⟨hg.mods, hg.lang, hg.cwd, hg.noOverlap, hg.ver, inv_of_eq E _ vs w _ rfl rfl hg.inv⟩
   | run f =>
-    obtain ⟨h1, _, h3⟩ := runStep_frame E w f
+    obtain ⟨h1, _, h3, h4⟩ := runStep_frame E w f
     simp only [step]
-    refine ⟨h3.trans hg.mods, by rw [h1]; exact hg.lang, by rw [h1]; exact hg.cwd, by rw [h1]; exact hg.noOverlap, ?_⟩
-    have := inv_runStep E bodyOf hown w f (by rw [hg.mods]; exact hg.inv)
+    refine ⟨h3.trans hg.mods, by rw [h1]; exact hg.lang, by rw [h1]; exact hg.cwd, by rw [h1]; exact hg.noOverlap, by rw [h4]; exact hg.ver, ?_⟩
+    have := inv_runStep E vs w f hg.ver (by rw [hg.mods]; exact hg.inv)
     rwa [hg.mods] at this
   | rmOutput m =>
     simp only [step]
     cases hq : outputFilepath w.cfg m with
     | error e => exact hg
     | ok p =>
-      refine ⟨hg.mods, hg.lang, hg.cwd, hg.noOverlap, ?_⟩
+      refine ⟨hg.mods, hg.lang, hg.cwd, hg.noOverlap, hg.ver, ?_⟩
       intro q f hf
-      simp only at hf
+      simp only at hf ⊢
       split at hf
       · cases hf
-      · exact hg.inv q f hf
+      · rename_i hqp
+        obtain ⟨m', hm', snap, hs, rest⟩ := hg.inv q f hf
+        exact ⟨m', hm', snap, by simp [hqp, hs], rest⟩
   | setDirs ds =>
     simp only [step]
-    refine ⟨hg.mods, hg.lang, hg.cwd, ?_, hg.inv⟩
+    refine ⟨hg.mods, hg.lang, hg.cwd, ?_, hg.ver, inv_of_eq E _ vs w _ rfl rfl hg.inv⟩
     have := hop ds rfl
     unfold NoOverlap at this ⊢
     rw [← this]
@@ -707,22 +815,89 @@ theorem good_step (E : Env σ) (bodyOf : Str → σ → Except Err Text) (hown :
       (fun m => outputFilepath_congr { w.cfg with dirs := ds } ⟨ds, w0.cfg.lang, none, w0.cfg.cwd⟩ rfl hg.lang hg.cwd m) _
   | setForce f =>
     simp only [step]
-    refine ⟨hg.mods, hg.lang, hg.cwd, ?_, hg.inv⟩
+    refine ⟨hg.mods, hg.lang, hg.cwd, ?_, hg.ver, inv_of_eq E _ vs w _ rfl rfl hg.inv⟩
     have := hg.noOverlap
     unfold NoOverlap at this ⊢
     rw [← this]
     exact noOverlapFrom_congr { w.cfg with forceCfg := f } w.cfg (fun m => outputFilepath_congr _ _ rfl rfl rfl m) _
+  | setVer v =>
+    simp only [step]
+    exact ⟨hg.mods, hg.lang, hg.cwd, hg.noOverlap, hov v rfl, inv_of_eq E _ vs w _ rfl rfl hg.inv⟩
 
-theorem good_exec (E : Env σ) (bodyOf : Str → σ → Except Err Text) (hown : OwnSource E bodyOf) (w0 : World σ) (ops : List (Op σ))
-    (w : World σ) (hg : Good E bodyOf w0 w) (hops : DirsOK w0 ops) : Good E bodyOf w0 (exec E w ops) := by
+theorem good_exec (E : Env σ) (vs : List Vers) (w0 : World σ) (ops : List (Op σ))
+    (w : World σ) (hg : Good E vs w0 w) (hops : DirsOK w0 ops) (hvs : ∀ v, Op.setVer v ∈ ops → v ∈ vs) :
+    Good E vs w0 (exec E w ops) := by
   unfold exec
   induction ops generalizing w with
   | nil => simpa using hg
   | cons op ops ih =>
     simp only [List.foldl_cons]
     apply ih
-    · exact good_step E bodyOf hown w0 w op hg (fun ds h => hops ds (by simp [h]))
+    · exact good_step E vs w0 w op hg (fun ds h => hops ds (by simp [h])) (fun v h => hvs v (by simp [h]))
     · exact fun ds h => hops ds (by simp [h])
+    · exact fun v h => hvs v (by simp [h])
+
+theorem good_init (E : Env σ) (vs : List Vers) (w0 : World σ) (hempty : ∀ p, w0.files p = none) (hno : NoOverlap w0.cfg w0.mods)
+    (hv : w0.ver ∈ vs) : Good E vs w0 w0 :=
+  ⟨rfl, rfl, rfl, hno, hv, fun p f hf => by rw [hempty p] at hf; cases hf⟩
+
+/-- the trusted functions behave on the headers of the listed modules under the versions `vs`: md5 is collision-free there,
+    `json.loads` decodes them, and no version string is empty -/
+structure Sound (E : Env σ) (mods : List Str) (vs : List Vers) : Prop where
+  idInj : IdInj E mods vs
+  loadsSound : LoadsSound E mods vs
+  nonEmpty : VersNonEmpty vs
+
+/-- a history from an empty output tree whose configurations keep the output paths pairwise distinct and whose releases carry
+    versions of `vs` -/
+structure Hist (vs : List Vers) (w0 : World σ) (ops : List (Op σ)) : Prop where
+  empty : ∀ p, w0.files p = none
+  noOverlap : NoOverlap w0.cfg w0.mods
+  dirsOK : DirsOK w0 ops
+  versOK : VersOK vs w0 ops
+
+theorem sound_mono (E : Env σ) (mods : List Str) (vs vs' : List Vers) (hsub : ∀ v ∈ vs', v ∈ vs) (h : Sound E mods vs) : Sound E mods vs' :=
+  ⟨fun v hv v' hv' => h.idInj v (hsub v hv) v' (hsub v' hv'), fun v hv => h.loadsSound v (hsub v hv), fun v hv => h.nonEmpty v (hsub v hv)⟩
+
+theorem good_of_hist (E : Env σ) (vs : List Vers) (w0 : World σ) (ops : List (Op σ)) (h : Hist vs w0 ops) : Good E vs w0 (exec E w0 ops) :=
+  good_exec E vs w0 ops w0 (good_init E vs w0 h.empty h.noOverlap h.versOK.1) h.dirsOK h.versOK.2
+
+/-- after a release whose versions no existing output records, every listed module is a target of the plain run -/
+theorem targets_all_of_new_version (E : Env σ) (vs : List Vers) (w : World σ)
+    (hls : LoadsSound E w.mods (w.ver :: vs)) (hid : IdInj E w.mods (w.ver :: vs)) (hne : VersNonEmpty (w.ver :: vs))
+    (hnew : w.ver ∉ vs) (hno : NoOverlap w.cfg w.mods) (hinv : Inv E w.mods vs w) :
+    targets E w false = .ok w.mods ∨ effForce w.cfg false = true := by
+  obtain ⟨hpaths, _⟩ := (noOverlapFrom_iff w.cfg w.mods).1 hno
+  cases hforce : effForce w.cfg false with
+  | true => exact Or.inr rfl
+  | false =>
+    refine Or.inl ?_
+    unfold targets
+    simp only [hforce, Bool.false_eq_true, if_false]
+    have hinv' : Inv E w.mods (w.ver :: vs) w := inv_mono E _ vs _ w (fun v hv => by simp [hv]) hinv
+    have hall : ∀ m ∈ w.mods, canTranspile E w m = .ok ((fun _ => true) m) := by
+      intro m hm
+      obtain ⟨p, hp⟩ := hpaths m hm
+      obtain ⟨b, hb⟩ := canTranspile_total E (w.ver :: vs) w hls hne hinv' m p hp
+      cases b with
+      | true => exact hb
+      | false =>
+        obtain ⟨f, snap, b', hf, _, _, hcont, _⟩ := canTranspile_false E (w.ver :: vs) w hls hid hne (by simp) hinv' m p hm hp hb
+        -- the file records the current version, but every file was written by a version of `vs`
+        obtain ⟨m', hm', snap', _, v, hv, b'', _, hcont'⟩ := hinv p f hf
+        rw [hcont] at hcont'
+        have hp1 := parse_rendered E w.mods (w.ver :: vs) hls hne w.ver.app w.ver (by simp) (snap m) m hm b'
+        have hp2 := parse_rendered E w.mods (w.ver :: vs) hls hne w.ver.app v (by simp [hv]) (snap' m') m' hm' b''
+        rw [hcont'] at hp1
+        rw [hp1] at hp2
+        injection hp2 with hp2
+        injection hp2 with hp2
+        have := congrArg Header.toJson hp2
+        obtain ⟨_, _, hvv⟩ := header_eq_of_toJson E w.mods (w.ver :: vs) hls w.ver v (snap m) (snap' m') m m' (by simp) (by simp [hv]) hm hm' this
+        rw [hvv] at hnew
+        exact absurd hv hnew
+    rw [selectFrom_filter E w (fun _ => true) w.mods hall]
+    simp
 
 /-! ### the decision of `can_transpile` -/
 
@@ -738,8 +913,8 @@ def Stale (E : Env σ) (w : World σ) (m : Str) : Prop :=
   ∃ p, outputFilepath w.cfg m = .ok p ∧
     (w.files p = none ∨ ∃ f, w.files p = some f ∧
       (headerSlice f.content = none ∨
-        ∃ old, tryFromContent E.loads E.appVersion f.content = .ok (some old) ∧
-          old.identity E.md5 ≠ (curHeader E (w.src m) m).identity E.md5))
+        ∃ old, tryFromContent E.loads w.ver.app f.content = .ok (some old) ∧
+          old.identity E.md5 ≠ (curHeader E w.ver (w.src m) m).identity E.md5))
 
 theorem canTranspile_true_iff (E : Env σ) (w : World σ) (m : Str) : canTranspile E w m = .ok true ↔ Stale E w m := by
   unfold Stale
@@ -749,7 +924,7 @@ theorem canTranspile_true_iff (E : Env σ) (w : World σ) (m : Str) : canTranspi
     cases hf : w.files p with
     | none => simp [canTranspile, tryLoadMetaHeader, hp, hf]
     | some f =>
-      cases ht : tryFromContent E.loads E.appVersion f.content with
+      cases ht : tryFromContent E.loads w.ver.app f.content with
       | error e =>
         have hs : headerSlice f.content ≠ none := by
           intro h
@@ -779,5 +954,50 @@ theorem canTranspile_true_iff (E : Env σ) (w : World σ) (m : Str) : canTranspi
               · exact absurd h hs
               · rw [ht] at ho; injection ho with ho; injection ho with ho; subst ho
                 exact fun e => hne e.symm
+
+/-! ### `module_meta_factory`: exact lookup in the module list -/
+
+theorem metaLookup_first (mps : List ModPath) (m : Str) (mp : ModPath) (h : metaLookup mps m = .ok mp) :
+    mp.path = m ∧ ∃ pre post, mps = pre ++ mp :: post ∧ ∀ x ∈ pre, x.path ≠ m := by
+  induction mps with
+  | nil => simp [metaLookup] at h
+  | cons x xs ih =>
+    simp only [metaLookup] at h
+    split at h
+    · rename_i hx
+      injection h with h; subst h
+      exact ⟨hx, [], xs, rfl, by simp⟩
+    · rename_i hx
+      obtain ⟨h1, pre, post, h2, h3⟩ := ih h
+      refine ⟨h1, x :: pre, post, by simp [h2], ?_⟩
+      intro y hy
+      simp only [List.mem_cons] at hy
+      rcases hy with rfl | hy
+      · exact hx
+      · exact h3 y hy
+
+theorem metaLookup_absent (mps : List ModPath) (m : Str) : (∀ x ∈ mps, x.path ≠ m) ↔ metaLookup mps m = .error .valueError := by
+  induction mps with
+  | nil => simp [metaLookup]
+  | cons x xs ih =>
+    simp only [metaLookup, List.mem_cons, forall_eq_or_imp]
+    by_cases hx : x.path = m
+    · simp [hx]
+    · simp [hx, ih]
+
+theorem metaLookup_exact (mps : List ModPath) (hnd : (mps.map (·.path)).Nodup) (mp : ModPath) (hm : mp ∈ mps) :
+    metaLookup mps mp.path = .ok mp := by
+  induction mps with
+  | nil => cases hm
+  | cons x xs ih =>
+    simp only [List.map_cons, List.nodup_cons] at hnd
+    simp only [metaLookup]
+    simp only [List.mem_cons] at hm
+    rcases hm with rfl | hm
+    · simp
+    · have hne : x.path ≠ mp.path := by
+        intro e
+        exact hnd.1 (e ▸ List.mem_map.2 ⟨mp, hm, rfl⟩)
+      simp [hne, ih hnd.2 hm]
 
 end Tranp.Runner
